@@ -64,6 +64,10 @@ def vdi_chain(draw, tier):
 def qcow2_chain(draw, tier):
     cb = draw(st.sampled_from([9, 12, 16, 14]))
     ng = draw(st.integers(1, 40))
+    if cb <= 14 and draw(st.booleans()):
+        # more than one L1 entry per layer (a layer may then lack a whole L2 table where its neighbour has one)
+        l2e = (1 << cb) // 8
+        ng = draw(st.sampled_from([l2e + 1, l2e + 7, 2 * l2e + 1])) if cb > 9 else draw(st.integers(65, 400))
     depth = draw(st.integers(2, max_depth(tier)))
     layers = []
     for i in range(depth):
@@ -272,7 +276,19 @@ def strategy_(draw, tier):
             for b, runs in lay["partial"].items():
                 for a, c in runs[:6]:
                     pts += [int(b) * bs + a * ss, int(b) * bs + (a + c) * ss]
+    if fam in ("qcow2", "qcow2-snap"):
+        img = spec["layers"][-1] if fam == "qcow2" else spec["image"]
+        cs = 1 << img["cluster_bits"]
+        span = cs * (cs // (16 if img["ext_l2"] else 8))
+        l1_pts = [k * span for k in range(1, min(4, spec["size"] // span + 1))]
+        pts += l1_pts
     spec["requests"] = draw(strat.requests(spec["size"], spec["unit"], count=6, points=pts, whole_limit=4 << 20))
+    if fam in ("qcow2", "qcow2-snap") and l1_pts:
+        # always: a request that starts inside the last cluster before an L1 boundary (mid-cluster where clusters exceed the
+        # stream buffer) and ends behind it
+        p0 = draw(st.sampled_from(l1_pts))
+        back = draw(st.sampled_from([512, 8192, 8192 + 512, cs // 2, cs - 512]))
+        spec["requests"].append([max(0, p0 - back), back + draw(st.sampled_from([1, 512, 8192, cs]))])
     return spec
 
 
